@@ -152,12 +152,14 @@ def property_on_impl(case, base, result):
             out.append({'why': 'row-not-final-after-resume', 'detail': {'url': t, 'status': row['status']}})
     # (c) together the runs request what the uninterrupted crawl requests; (d) and nothing else
     both = set(req1) | set(req2)
-    for k in sorted(set(breq)):
+    # several workers: the uninterrupted crawl itself is schedule dependent (C01 F29); the standard is the one-worker crawl
+    expected = set(breq) if case['opts']['conc'] == 1 else set(ref['requests'])
+    for k in sorted(expected):
         if k not in both:
             out.append({'why': 'request-missing-after-resume', 'detail': {'url': list(k), 'conc': case['opts']['conc'],
                                                                          'in_table': es.canon(*k) in rows2}})
     for k in sorted(set(req2)):
-        if k not in set(breq):
+        if k not in expected and k not in set(breq):
             out.append({'why': 'extra-request-after-resume', 'detail': {
                 'url': list(k), 'conc': case['opts']['conc'],
                 'host_not_a_start_host': k[0] not in {s[0] for s in case['starts']}}})
@@ -220,6 +222,8 @@ def correspondence(ctx):
     r = common.rng('c03')
     cases = fixed_cases()
     n_random = 0 if not ctx.thorough else 60
+    if ctx.thorough:
+        cases.append(('two-workers-depth-limit', c01.case_f29()))
     for i in range(n_random):
         cases.append(('random-%d' % i, es.gen_case(r, hosts=r.choice([1, 2]), conc=1 if i % 3 else 2,
                                                    n_pages=r.randrange(4, 7 if not ctx.thorough else 10))))
